@@ -174,8 +174,8 @@ def bounded_threads_and_interleaving(tier, seed):
     t0 = time.time()
 
     def shot(k):
-        if k == 4:      # smooth bore, no bullet dimensions: nothing of an earlier shot's spin data may survive
-            return P.Shot(P.Weapon(P.Unit.Inch(2), 0), P.Ammo(P.DragModel(0.25, P.TableG1), P.Unit.FPS(1400)),
+        if k == 4:      # rifled barrel but no bullet dimensions: nothing of an earlier shot's spin data may survive
+            return P.Shot(P.Weapon(P.Unit.Inch(2), P.Unit.Inch(9)), P.Ammo(P.DragModel(0.25, P.TableG1), P.Unit.FPS(1400)),
                           winds=[P.Wind(P.Unit.MPH(4), P.Unit.Degree(90))])
         return P.Shot(P.Weapon(P.Unit.Inch(2), P.Unit.Inch(10 + k), P.Unit.Mil(1 + k)),
                       P.Ammo(P.DragModel(0.2 + 0.05 * k, P.TableG7, P.Unit.Grain(150), P.Unit.Inch(0.308), P.Unit.Inch(1.2)),
